@@ -4,6 +4,7 @@
 -/
 import ChessVerif.Model.Bitbase
 import ChessVerif.Spec.KPK
+import ChessVerif.Props.C12gen.All
 namespace Chess.Props
 
 /-- the full statement: the engine says "win" exactly for the positions from which the pawn's side can force a win -/
@@ -52,5 +53,58 @@ theorem C12_normalize (strong stm sk sp : Nat) (h1 : strong < 2) (h2 : stm < 2) 
   have e : sp - 8 + 8 = sp := by omega
   rw [e] at this
   exact ⟨this.1.1.1.1.1, this.1.1.1.1.2, this.1.1.1.2, this.2⟩
+
+open Spec.KPK in
+/-- the local certificate conditions hold at EVERY position (96 kernel-evaluated chunks of 4096 king placements; positions
+    outside the board are not legal) -/
+theorem C12_certificate : ∀ q : Spec.KPK.Pos, Spec.KPK.certOK Spec.KPK.tableT Spec.KPK.rankR q = true := by
+  intro q
+  by_cases hl : legalP q = true
+  · have hl' := hl
+    unfold legalP legal at hl'
+    simp only [Bool.and_eq_true, decide_eq_true_eq] at hl'
+    obtain ⟨⟨⟨⟨⟨⟨_, hr1⟩, hr2⟩, _⟩, hs⟩, hwk⟩, hbk⟩ := hl'
+    have h1 : 8 ≤ q.wp := by unfold Spec.KPK.rankOf at hr1; omega
+    have h2 : q.wp < 56 := by unfold Spec.KPK.rankOf at hr2; omega
+    have hc := chunkOK_all q.stm q.wp hs h1 h2
+    unfold chunkOK at hc
+    simp only [List.all_eq_true, List.mem_range] at hc
+    have := hc q.wk hwk q.bk hbk
+    rw [← certN_eq] at this
+    exact this
+  · unfold certOK
+    have : legalP q = false := by simpa using hl
+    rw [this]; rfl
+
+open Spec.KPK in
+/-- C12 (FULL, white pawn): for every legal KPK position — all 8 pawn files, both sides to move — the engine's answer
+    (normalize → index → bit of the table the current build produced) is "win" EXACTLY when the pawn's side can force a
+    win under the rules (least fixpoint `Wins`: safe promotion / a move to a won position; the defender is mated, or
+    cannot take the pawn and every move loses).  Kernel-checked certificate: no sampling, no compiled code. -/
+theorem C12_kpk (q : Spec.KPK.Pos) (hl : Spec.KPK.legalP q = true) :
+    kpkSaysWin 0 q.stm q.wk q.wp q.bk = true ↔ Spec.KPK.Wins q :=
+  cert_correct tableT rankR C12_certificate q hl
+
+def flipOK : Bool :=
+  (List.range 64).all fun s => flipH (flipV s) == flipV (flipH s) && fileOf (flipV s) == fileOf s && flipV s < 64 && flipH s < 64
+
+theorem flipOK_true : flipOK = true := by decide +kernel
+
+/-- C12 (black pawn): the engine answers a black-pawn position by the colour-mirrored white-pawn position with the
+    side to move swapped — so `C12_kpk` covers both colours -/
+theorem C12_mirror (stm sk sp wk : Nat) (h1 : sk < 64) (h2 : sp < 64) (h3 : wk < 64) :
+    kpkSaysWin 1 stm sk sp wk = kpkSaysWin 0 (1 - stm) (flipV sk) (flipV sp) (flipV wk) := by
+  have h := flipOK_true
+  simp only [flipOK, List.all_eq_true, List.mem_range, Bool.and_eq_true, beq_iff_eq, decide_eq_true_eq] at h
+  obtain ⟨⟨⟨a1, a2⟩, _⟩, _⟩ := h sk h1
+  obtain ⟨⟨⟨b1, b2⟩, _⟩, _⟩ := h sp h2
+  obtain ⟨⟨⟨c1, c2⟩, _⟩, _⟩ := h wk h3
+  unfold kpkSaysWin kpkNormalize
+  rw [b2]
+  by_cases hf : fileOf sp > 3
+  · simp only [hf, if_true, a1, b1, c1]
+    simp
+  · simp only [hf, if_false]
+    simp
 
 end Chess.Props
